@@ -17,7 +17,10 @@
 (* has to produce and the reader has to recover, not something given.          *)
 (* Loaded coordinates are integers in units of `res` micro-Angstrom.           *)
 EXTENDS Integers, Sequences, FiniteSets, TLC
-CONSTANTS GeomPool,    \* objects offered to Make: [cls, frames]; frame = Seq([el, x, y, z]), x = [u, s]
+CONSTANTS GeomPool,    \* objects offered to Make: [cls, frames]; frame = Seq([el, ty, x, y, z]), x = [u, s];
+                       \* el = element symbol or "dummy" (no element, Z = 0); ty = atom type class "regular" | "dummy":
+                       \* an atom of dummy TYPE may carry a real element (Du.H of a mol2 file) -- the text carries
+                       \* the ELEMENT, the type is not part of the statement
           SmallPool,   \* the objects that may be dumped one after another into the same stream
           FilePool,    \* frames lists with integer "grain" coordinates: files of other programs
           Units,       \* names accepted as source_units (members of DistanceUnit, aliases included)
@@ -72,10 +75,11 @@ RoundTo(c, d) == LET q  == Q(d)
                      v  == 10 * (c.u - t0 * q) + c.s
                  IN IF 2 * v > 10 * q THEN t0 + 1 ELSE t0
 
+WrittenEl(a) == IF "DummyTypeHidesElement" \in Deviations /\ a.ty = "dummy" THEN "dummy" ELSE a.el
 AtomLine(a, d) ==
   IF "ColumnsSwapped" \in Deviations
-    THEN [k |-> "atom", el |-> a.el, x |-> RoundTo(a.x, d), y |-> RoundTo(a.z, d), z |-> RoundTo(a.y, d)]
-    ELSE [k |-> "atom", el |-> a.el, x |-> RoundTo(a.x, d), y |-> RoundTo(a.y, d), z |-> RoundTo(a.z, d)]
+    THEN [k |-> "atom", el |-> WrittenEl(a), x |-> RoundTo(a.x, d), y |-> RoundTo(a.z, d), z |-> RoundTo(a.y, d)]
+    ELSE [k |-> "atom", el |-> WrittenEl(a), x |-> RoundTo(a.x, d), y |-> RoundTo(a.y, d), z |-> RoundTo(a.z, d)]
 Header(f)        == <<[k |-> "count", n |-> Len(f)], [k |-> "comment"]>>
 Body(f, d)       == [i \in 1..Len(f) |-> AtomLine(f[i], d)]
 FrameLines(f, d) == Header(f) \o Body(f, d)
@@ -226,7 +230,9 @@ TypeOK == /\ mem = NoObj \/ mem.cls \in Classes
 PoolOK == /\ \A g \in GeomPool : /\ g.cls \in Classes /\ Len(g.frames) >= 1
                                  /\ g.cls # Ens => Len(g.frames) = 1
                                  /\ \A j \in 1..Len(g.frames) : \A i \in 1..Len(g.frames[j]) :
-                                       LET a == g.frames[j][i] IN NoTie(a.x, Dec) /\ NoTie(a.y, Dec) /\ NoTie(a.z, Dec)
+                                       LET a == g.frames[j][i] IN /\ NoTie(a.x, Dec) /\ NoTie(a.y, Dec) /\ NoTie(a.z, Dec)
+                                                                  /\ a.ty \in {"regular", "dummy"}
+                                                                  /\ a.el = "dummy" => a.ty = "dummy"
                                  /\ \A j \in 1..Len(g.frames) : ElsOf(g.frames[j]) = ElsOf(g.frames[1])
           /\ SmallPool \subseteq GeomPool /\ Units \subseteq KnownUnits /\ Dec \in 1..6
 =============================================================================
